@@ -629,6 +629,9 @@ def run_job(job):
         for i, asset in enumerate(job["parse"]):
             try:
                 cells = read_cells(ods, asset)
+            except KeyError:
+                cells = []           # no such sheet: the model still decides whether the asset is configured
+            try:
                 c0 = job.get("counters", [0] * len(job["parse"]))[i]
                 res["lines"].append(hist.line(41, encode_parse_full(job["lay"], job["assets"], job["exchanges"], job["holders"], asset, c0, cells)))
             except Exception:  # noqa: BLE001
